@@ -94,3 +94,5 @@ def run(ctx):
             ctx.check(q + ' counter words', ok, 'the block counter is not split as (i & (2^32-1), i >> 32): low mask and high shift must cover the same 32 bits',
                       ctx.where(rel, q))
     ctx.guard('counter', counter)
+
+    dependencies(ctx, ['crysp/bits.py', 'crysp/chacha.py', 'crysp/poly.py', 'crysp/rc4.py', 'crysp/salsa20.py', 'crysp/utils/operators.py'], 'C06')
